@@ -27,6 +27,8 @@ type c06Case struct {
 	BindPick int   `json:"bind_pick"`
 	BindAll  bool  `json:"bind_all"` // thorough: bind every returned node on a rebuilt world
 	Restart  bool  `json:"restart"`  // galaxy-ipam is restarted (memory rebuilt from the store) before the pod is filtered
+	// AppReserved: picks of free IPs reserved under the app prefix of an immutable/never deployment (left behind by earlier pods)
+	AppReserved []int `json:"app_reserved,omitempty"`
 }
 
 func genC06() *rapid.Generator[c06Case] {
@@ -53,6 +55,11 @@ func genC06() *rapid.Generator[c06Case] {
 			c.Held = rapid.IntRange(0, 1000).Draw(t, "heldPick")
 			if len(c.WL.Ranges) >= 2 && rapid.Bool().Draw(t, "held2") {
 				c.Held2 = rapid.IntRange(0, 1000).Draw(t, "held2Pick")
+			}
+		}
+		if k == "dp" && c.WL.Policy != "" && rapid.IntRange(0, 2).Draw(t, "appReserved") > 0 {
+			for i, n := 0, rapid.IntRange(1, 3).Draw(t, "nAppReserved"); i < n; i++ {
+				c.AppReserved = append(c.AppReserved, rapid.IntRange(0, 1000).Draw(t, "appReservedPick"))
 			}
 		}
 		c.Cands = rapid.IntRange(0, 255).Draw(t, "cands")
@@ -162,6 +169,24 @@ func setupC06(c *c06Case) (*Exec, *PodRec, map[string]bool, []string, *vcore.Fai
 			}
 		}
 	}
+	if len(held) == 0 {
+		prefix := strings.TrimSuffix(pod.Key, pod.Name)
+		for _, ap := range c.AppReserved {
+			var fr []string
+			for _, ip := range ips {
+				if free[ip] {
+					fr = append(fr, ip)
+				}
+			}
+			if len(fr) == 0 {
+				break
+			}
+			ip := fr[ap%len(fr)]
+			if err := ipam.AllocateSpecificIP(prefix, net.ParseIP(ip), floatingip.Attr{Policy: constant.ReleasePolicy(c.WL.PolicyNum())}); err == nil {
+				free[ip] = false
+			}
+		}
+	}
 	if c.Restart {
 		if err := w.Restart(); err != nil {
 			return nil, nil, nil, nil, vcore.Failf("harness:restart", "restart failed: %v", err)
@@ -230,6 +255,22 @@ func checkC06(c c06Case, r *vcore.Rec) *vcore.Failure {
 			if !pools[all[h]].RoutableFrom(x.nodeIP(n)) {
 				return vcore.Failf("c06:held_unroutable", "pod holds %s (pool node subnets %v) but filter offered node %s (%s)", h,
 					pools[all[h]].NodeSubnets, n, x.nodeIP(n))
+			}
+		}
+	}
+	// (iii') an IP handed to the pod during filter (a reserved IP of its app) counts as held from then on
+	if len(held) == 0 {
+		now, _, _ := w.TryTables()
+		for ip, f := range now {
+			if f.Key != pod.Key {
+				continue
+			}
+			r.Class("ip_taken_during_filter")
+			for _, n := range nodes {
+				if pi, ok := all[ip]; ok && !pools[pi].RoutableFrom(x.nodeIP(n)) {
+					return vcore.Failf("c06:held_unroutable", "filter gave the pod %s (pool node subnets %v) and offered node %s (%s)", ip,
+						pools[pi].NodeSubnets, n, x.nodeIP(n))
+				}
 			}
 		}
 	}
